@@ -726,6 +726,15 @@ class Connection(ExportImport):
         for oid in creating:
             o = self._cache.get(oid)
             if o is not None:
+                if o._p_changed is None and not isinstance(o, Blob):
+                    # A ghost: a savepoint stored the object and the cache
+                    # let go of its state since.  Without a database it
+                    # could never get it back: load it while the record
+                    # can still be read.
+                    try:
+                        o._p_activate()
+                    except Exception:
+                        pass  # no record to read: nothing to keep
                 del self._cache[oid]
                 if o._p_changed:
                     o._p_changed = False
